@@ -399,6 +399,76 @@ def primitive_returns(R, ir, rng, seed, uid, tier):
             R.nontrivial('primitive_return', kind, gen.vclass(v))
 
 
+def declared_headers(R, seed):
+    """... "with the declared HTTP headers": members of the out-header class of a method, set by the method, arrive as HTTP response
+    headers that say the same thing - text as it is, numbers in decimal, points in time as the RFC 1123 date of that instant."""
+    import datetime as dt
+    import email.utils
+    import pytz
+    from spyne import Application, Service, rpc, Unicode, Integer, DateTime, ComplexModel
+    from spyne.protocol.http import HttpRpc
+    from spyne.server.wsgi import WsgiApplication
+    rng = core.rng_for(seed, PROP, 'headers')
+
+    class Hd(ComplexModel):
+        __namespace__ = 'urn:vf:c03h'
+        _type_info = [('Expires', DateTime), ('Last-Modified', DateTime), ('X-Count', Integer), ('X-Note', Unicode), ('Set-Cookie', Unicode(max_occurs='unbounded'))]
+    box = {}
+
+    class S(Service):
+        @rpc(Unicode, _returns=Unicode, _out_header=Hd)
+        def page(ctx, s):
+            ctx.out_header = Hd(**box['hd'])
+            return s
+    wsgi = WsgiApplication(Application([S], 'urn:vf:c03h', in_protocol=HttpRpc(), out_protocol=HttpRpc()))
+    zones = [None, pytz.utc, dt.timezone.utc, pytz.FixedOffset(180), pytz.FixedOffset(-330), dt.timezone(dt.timedelta(hours=14)), dt.timezone(dt.timedelta(hours=-12)),
+             pytz.timezone('Europe/Istanbul'), pytz.timezone('America/New_York'), pytz.timezone('Asia/Kolkata')]
+    for k in range(60):
+        z1, z2 = rng.choice(zones), rng.choice(zones)
+
+        def moment(z):
+            naive = dt.datetime(rng.randint(1971, 2037), rng.randint(1, 12), rng.randint(1, 28), rng.randint(0, 23), rng.randint(0, 59), rng.randint(0, 59))
+            if z is None:
+                return naive, naive.replace(tzinfo=dt.timezone.utc)
+            aware = z.localize(naive) if hasattr(z, 'localize') else naive.replace(tzinfo=z)
+            return aware, aware
+        (e_val, e_inst), (m_val, m_inst) = moment(z1), moment(z2)
+        n = rng.choice((0, 1, -5, 10 ** 12))
+        note = rng.choice(('plain', 'two words', 'x=1; y=2', 'caf\xe9'))
+        cookies = ['a=%d' % k, 'b=2; Path=/'][:rng.randint(1, 2)]
+        box['hd'] = {'Expires': e_val, 'Last-Modified': m_val, 'X-Count': n, 'X-Note': note, 'Set-Cookie': cookies}
+        env, inp = drive.make_environ('GET', '/page', 's=x', b'', None)
+        R.evaluations += 1
+        w = drive.call_wsgi(wsgi, env, inp)
+        repro = {'scenario': 'declared_headers', 'seed': seed, 'k': k, 'expires': repr(e_val), 'last_modified': repr(m_val)}
+        if w.exc is not None or w.code != 200:
+            R.violation('a method that sets its declared response headers was answered %s / %r' % (w.status, w.exc), repro, mech='declared_headers:not_served')
+            continue
+        R.count('declared_header_responses')
+        hs = {}
+        for hk, hv in w.headers:
+            hs.setdefault(hk, []).append(hv)
+        want = {'Expires': [email.utils.format_datetime(e_inst.astimezone(dt.timezone.utc), usegmt=True)],
+                'Last-Modified': [email.utils.format_datetime(m_inst.astimezone(dt.timezone.utc), usegmt=True)],
+                'X-Count': [str(n)], 'X-Note': [note], 'Set-Cookie': cookies}
+        for hk, hv in want.items():
+            got = hs.get(hk)
+            if got != hv:
+                same_instant = False
+                if hk in ('Expires', 'Last-Modified') and got and len(got) == 1:
+                    try:
+                        same_instant = email.utils.parsedate_to_datetime(got[0]) == email.utils.parsedate_to_datetime(hv[0])
+                    except Exception:
+                        same_instant = False
+                if same_instant:
+                    continue
+                R.violation('declared header %s: sent %r, the method set %r (%r)' % (hk, got, box['hd'][hk], hv), dict(repro, header=hk),
+                            mech='declared_header_differs:%s' % ('instant' if hk in ('Expires', 'Last-Modified') else hk))
+                break
+        else:
+            R.nontrivial('declared_headers', str(z1), str(z2), len(cookies))
+
+
 RAGGED_NS = 'urn:vf:c03r'
 
 
@@ -484,10 +554,16 @@ def run(spec, R):
     if spec['first'] == 0:
         self_reference_scenario(R, spec['seed'])
         run_universe(R, spec['seed'], SIBLINGS_UNIVERSE, 'thorough')
+        declared_headers(R, spec['seed'])
 
 
 def replay(v, R):
     c = v['repro']
+    if c.get('scenario') == 'declared_headers':
+        declared_headers(R, c['seed'])
+        for x in R.violations[:10]:
+            print('replayed:', x.get('mech'), x.get('what'))
+        return
     if c.get('scenario') == 'self_reference':
         self_reference_scenario(R, c['seed'])
         for x in R.violations[:10]:
